@@ -263,6 +263,19 @@ class Sim(object):
                      for s in self.tasks[uid]['_app_slot_list']])
         self.trace.append(['complete', uid])
 
+    def complete_bulk(self, uids):
+        '''the executor gives the resources of several tasks back with ONE
+        message (the Popen watcher collects up to 100 tasks per pass)'''
+        tasks = list()
+        for uid in uids:
+            slots = self.held.pop(uid)
+            tasks.append(self._grant_task[uid])
+            self.unsched_published.append(uid)
+            for ob in self.observers:
+                ob.on_release(self, uid, slots)
+        self.env.publish(rpc.AGENT_UNSCHEDULE_PUBSUB, tasks)
+        self.trace.append(['complete_bulk', len(uids)])
+
     def cancel(self, uids):
         self.env.publish(rpc.CONTROL_PUBSUB, {'cmd': 'cancel_tasks',
                                               'arg': {'uids': list(uids)}})
